@@ -110,7 +110,7 @@ def log (X : SO3 K) : SO3T K :=
         (if Scalar.lt cos_angle (nat 0) then Scalar.atan2 (-sin_angle) (-cos_angle)
          else Scalar.atan2 sin_angle cos_angle)
       two_angle / sin_angle
-    else nat 2
+    else (if Scalar.lt X.q.w (nat 0) then -(nat 2) else nat 2)
   ⟨vec.muls log_coeff⟩
 
 /-- `J_t_m` of `log`: `I + 0.5 hat + (…) hat hat` with its own `theta2 > eps` branch. -/
